@@ -185,12 +185,14 @@ class UHSEnumerator(ProgramEnumerator[None], ABC, Generic[U, V, W]):
                         HeapElement(priority, program),
                     )
                     if S in self.G.starts:
-                        heappush(
-                            self._start_heap,
-                            StartHeapElement(
-                                self.adjust_priority_for_start(priority, S), program, S
-                            ),
-                        )
+                        start_priority = self.adjust_priority_for_start(priority, S)
+                        # the threshold bounds the probability of the whole program,
+                        # which includes the probability of its start symbol
+                        if not self.threshold or start_priority < self.threshold:
+                            heappush(
+                                self._start_heap,
+                                StartHeapElement(start_priority, program, S),
+                            )
 
         # 3) Do the 1st query
         self.query(S, None)
@@ -242,14 +244,17 @@ class UHSEnumerator(ProgramEnumerator[None], ABC, Generic[U, V, W]):
                         if not self.threshold or priority < self.threshold:
                             heappush(self.heaps[S], HeapElement(priority, new_program))
                             if S in self.G.starts:
-                                heappush(
-                                    self._start_heap,
-                                    StartHeapElement(
-                                        self.adjust_priority_for_start(priority, S),
-                                        new_program,
-                                        S,
-                                    ),
+                                start_priority = self.adjust_priority_for_start(
+                                    priority, S
                                 )
+                                if (
+                                    not self.threshold
+                                    or start_priority < self.threshold
+                                ):
+                                    heappush(
+                                        self._start_heap,
+                                        StartHeapElement(start_priority, new_program, S),
+                                    )
                 return True
         return False
 
